@@ -1,0 +1,258 @@
+//go:build verif
+
+/*
+ * Atree - Scalable Arrays and Ordered Maps
+ *
+ * Copyright Flow Foundation
+ *
+ * Licensed under the Apache License, Version 2.0 (the "License");
+ * you may not use this file except in compliance with the License.
+ * You may obtain a copy of the License at
+ *
+ *   http://www.apache.org/licenses/LICENSE-2.0
+ *
+ * Unless required by applicable law or agreed to in writing, software
+ * distributed under the License is distributed on an "AS IS" BASIS,
+ * WITHOUT WARRANTIES OR CONDITIONS OF ANY KIND, either express or implied.
+ * See the License for the specific language governing permissions and
+ * limitations under the License.
+ */
+
+package atree
+
+import (
+	"fmt"
+	"strings"
+)
+
+// Verification hooks for property C18 (rejected requests leave no trace). This file only exists
+// for the compiler when the build tag "verif" is set. It adds one read-only deep dump; it does
+// not change any existing declaration.
+
+// VerifDeepDump returns a canonical text of EVERYTHING reachable from the root slab the wrapper
+// holds: every slab with all cached header fields (size, count / first key), sibling links, the
+// parent's copies of the child headers, cumulative counts, extra data (type, count, seed), flags,
+// the element structure of maps (levels, digests, cached sizes, groups, external group slabs) and
+// every stored element; inlined child containers and containers / storable slabs referenced by
+// identifier are dumped recursively.  Referenced slabs are read through storage.Retrieve (this
+// may load them into the read cache, it never touches the write set).
+func VerifDeepDump(storage SlabStorage, v Value) (string, error) {
+	d := &verifDumper{storage: storage}
+	switch x := v.(type) {
+	case *Array:
+		d.arraySlab(x.root, 0)
+	case *OrderedMap:
+		d.mapSlab(x.root, 0)
+	default:
+		return "", fmt.Errorf("verif: cannot dump %T", v)
+	}
+	return d.sb.String(), d.err
+}
+
+type verifDumper struct {
+	storage SlabStorage
+	sb      strings.Builder
+	err     error
+}
+
+func (d *verifDumper) fail(format string, args ...any) {
+	if d.err == nil {
+		d.err = fmt.Errorf(format, args...)
+	}
+	fmt.Fprintf(&d.sb, "<!"+format+">", args...)
+}
+
+func verifTypeID(t TypeInfo) string {
+	if t == nil {
+		return "nil"
+	}
+	return fmt.Sprintf("%T:%v", t, t)
+}
+
+func (d *verifDumper) arraySlab(slab ArraySlab, depth int) {
+	if depth > 64 {
+		d.fail("array deeper than 64")
+		return
+	}
+	switch s := slab.(type) {
+	case *ArrayDataSlab:
+		fmt.Fprintf(&d.sb, "AD{id=%s size=%d count=%d next=%s inlined=%t", s.header.slabID, s.header.size, s.header.count, s.next, s.inlined)
+		if s.extraData != nil {
+			fmt.Fprintf(&d.sb, " extra(type=%s)", verifTypeID(s.extraData.TypeInfo))
+		}
+		d.sb.WriteString(" [")
+		for i, e := range s.elements {
+			if i > 0 {
+				d.sb.WriteByte(' ')
+			}
+			d.storable(e, depth+1)
+		}
+		d.sb.WriteString("]}")
+	case *ArrayMetaDataSlab:
+		fmt.Fprintf(&d.sb, "AM{id=%s size=%d count=%d", s.header.slabID, s.header.size, s.header.count)
+		if s.extraData != nil {
+			fmt.Fprintf(&d.sb, " extra(type=%s)", verifTypeID(s.extraData.TypeInfo))
+		}
+		d.sb.WriteString(" hdrs[")
+		for _, h := range s.childrenHeaders {
+			fmt.Fprintf(&d.sb, "(%s %d %d)", h.slabID, h.size, h.count)
+		}
+		fmt.Fprintf(&d.sb, "] sums%v children[", s.childrenCountSum)
+		for _, h := range s.childrenHeaders {
+			child, err := getArraySlab(d.storage, h.slabID)
+			if err != nil {
+				d.fail("child %s: %v", h.slabID, err)
+				continue
+			}
+			d.arraySlab(child, depth+1)
+		}
+		d.sb.WriteString("]}")
+	default:
+		d.fail("unexpected array slab %T", slab)
+	}
+}
+
+func (d *verifDumper) mapSlab(slab MapSlab, depth int) {
+	if depth > 64 {
+		d.fail("map deeper than 64")
+		return
+	}
+	extra := func(e *MapExtraData) {
+		if e != nil {
+			fmt.Fprintf(&d.sb, " extra(type=%s count=%d seed=%d)", verifTypeID(e.TypeInfo), e.Count, e.Seed)
+		}
+	}
+	switch s := slab.(type) {
+	case *MapDataSlab:
+		fmt.Fprintf(&d.sb, "MD{id=%s size=%d first=%d next=%s anySize=%t group=%t inlined=%t",
+			s.header.slabID, s.header.size, s.header.firstKey, s.next, s.anySize, s.collisionGroup, s.inlined)
+		extra(s.extraData)
+		d.sb.WriteByte(' ')
+		d.elements(s.elements, depth+1)
+		d.sb.WriteString("}")
+	case *MapMetaDataSlab:
+		fmt.Fprintf(&d.sb, "MM{id=%s size=%d first=%d", s.header.slabID, s.header.size, s.header.firstKey)
+		extra(s.extraData)
+		d.sb.WriteString(" hdrs[")
+		for _, h := range s.childrenHeaders {
+			fmt.Fprintf(&d.sb, "(%s %d %d)", h.slabID, h.size, h.firstKey)
+		}
+		d.sb.WriteString("] children[")
+		for _, h := range s.childrenHeaders {
+			child, err := getMapSlab(d.storage, h.slabID)
+			if err != nil {
+				d.fail("child %s: %v", h.slabID, err)
+				continue
+			}
+			d.mapSlab(child, depth+1)
+		}
+		d.sb.WriteString("]}")
+	default:
+		d.fail("unexpected map slab %T", slab)
+	}
+}
+
+func (d *verifDumper) elements(e elements, depth int) {
+	if depth > 96 {
+		d.fail("elements deeper than 96")
+		return
+	}
+	switch x := e.(type) {
+	case *hkeyElements:
+		fmt.Fprintf(&d.sb, "HK{level=%d size=%d hkeys=%v [", x.level, x.size, x.hkeys)
+		for i, el := range x.elems {
+			if i > 0 {
+				d.sb.WriteByte(' ')
+			}
+			d.element(el, depth+1)
+		}
+		d.sb.WriteString("]}")
+	case *singleElements:
+		fmt.Fprintf(&d.sb, "SL{level=%d size=%d [", x.level, x.size)
+		for i, el := range x.elems {
+			if i > 0 {
+				d.sb.WriteByte(' ')
+			}
+			d.element(el, depth+1)
+		}
+		d.sb.WriteString("]}")
+	default:
+		d.fail("unexpected elements %T", e)
+	}
+}
+
+func (d *verifDumper) element(el element, depth int) {
+	switch x := el.(type) {
+	case *singleElement:
+		if x == nil {
+			d.fail("nil single element")
+			return
+		}
+		fmt.Fprintf(&d.sb, "S{size=%d k=", x.size)
+		d.storable(x.key, depth+1)
+		d.sb.WriteString(" v=")
+		d.storable(x.value, depth+1)
+		d.sb.WriteString("}")
+	case *inlineCollisionGroup:
+		fmt.Fprintf(&d.sb, "IG{size=%d ", x.Size())
+		d.elements(x.elements, depth+1)
+		d.sb.WriteString("}")
+	case *externalCollisionGroup:
+		fmt.Fprintf(&d.sb, "XG{id=%s size=%d ", x.slabID, x.size)
+		slab, err := getMapSlab(d.storage, x.slabID)
+		if err != nil {
+			d.fail("group slab %s: %v", x.slabID, err)
+		} else {
+			d.mapSlab(slab, depth+1)
+		}
+		d.sb.WriteString("}")
+	default:
+		d.fail("unexpected element %T", el)
+	}
+}
+
+func (d *verifDumper) storable(s Storable, depth int) {
+	if depth > 96 {
+		d.fail("storable deeper than 96")
+		return
+	}
+	switch x := s.(type) {
+	case nil:
+		d.sb.WriteString("nil")
+	case *ArrayDataSlab:
+		d.sb.WriteString("inl:")
+		d.arraySlab(x, depth+1)
+	case *MapDataSlab:
+		d.sb.WriteString("inl:")
+		d.mapSlab(x, depth+1)
+	case SlabIDStorable:
+		id := SlabID(x)
+		fmt.Fprintf(&d.sb, "ref(%s)->", id)
+		slab, found, err := d.storage.Retrieve(id)
+		switch {
+		case err != nil:
+			d.fail("retrieve %s: %v", id, err)
+		case !found:
+			d.sb.WriteString("missing")
+		default:
+			switch y := slab.(type) {
+			case ArraySlab:
+				d.arraySlab(y, depth+1)
+			case MapSlab:
+				d.mapSlab(y, depth+1)
+			case *StorableSlab:
+				fmt.Fprintf(&d.sb, "SS{id=%s ", y.slabID)
+				d.storable(y.storable, depth+1)
+				d.sb.WriteString("}")
+			default:
+				d.fail("unexpected slab %T", slab)
+			}
+		}
+	case WrapperStorable:
+		fmt.Fprintf(&d.sb, "W<%T %d>(", s, s.ByteSize())
+		d.storable(x.UnwrapAtreeStorable(), depth+1)
+		d.sb.WriteString(")")
+	default:
+		fmt.Fprintf(&d.sb, "%T:%v/%d", s, s, s.ByteSize())
+	}
+}
